@@ -314,7 +314,10 @@ class DemoStorage(ConflictResolvingStorage):
     def pack(self, t, referencesf, gc=None):
         if gc is None:
             if self._temporary_changes:
-                return self.changes.pack(t, referencesf)
+                # The changes storage cannot see references from or to
+                # objects of the base: only collect garbage if the base
+                # holds no objects.
+                return self.changes.pack(t, referencesf, gc=not len(self.base))
         elif self._temporary_changes:
             return self.changes.pack(t, referencesf, gc=gc)
         elif gc:
